@@ -68,6 +68,30 @@ def patch_event(darsia, rng, n, k, relp, relq, h, omode, colour, tid):
     except Exception as ex:  # noqa
         e["blend"] = -1
         e["blend_error"] = repr(ex)[:120]
+    # one patch is replaced (set_image with an array of the patch's pixel type, as after processing it) and everything is put
+    # together again: the other patches and the base image are what they were, and the re-assembled image carries the new
+    # patch's interior in its region and the base image everywhere else
+    e["update"] = 1
+    try:
+        basecopy = img.img.copy()
+        before = [[P(i, j).img.copy() for j in range(k[1])] for i in range(k[0])]
+        ui, uj = rng.randrange(k[0]), rng.randrange(k[1])
+        new = (before[ui][uj] + 1000).astype(before[ui][uj].dtype)
+        newcopy = new.copy()
+        with contextlib.redirect_stdout(io.StringIO()):
+            P.set_image(new, ui, uj)
+            asm2 = P.assemble()
+        expect = basecopy.copy()
+        r, rr = P.rois[ui][uj], P.relative_rois_without_overlap[ui][uj]
+        inner = (slice(r[0].start + rr[0].start, r[0].start + rr[0].stop), slice(r[1].start + rr[1].start, r[1].start + rr[1].stop))
+        expect[inner] = newcopy[rr]
+        ok = np.array_equal(img.img, basecopy) and np.array_equal(new, newcopy) and np.array_equal(P(ui, uj).img, newcopy)
+        ok = ok and all(np.array_equal(P(i, j).img, before[i][j]) for i in range(k[0]) for j in range(k[1]) if (i, j) != (ui, uj))
+        ok = ok and asm2.img.shape == expect.shape and np.array_equal(asm2.img, expect)
+        e["update"] = int(ok)
+    except Exception as ex:  # noqa
+        e["update"] = -1
+        e["update_error"] = repr(ex)[:120]
     e["cv"] = np.asarray(P.global_corners_voxels).astype(int).tolist()
     e["lcv"] = np.asarray(P.local_corners_voxels).astype(int).tolist()      # corners of each patch relative to its own top-left corner
     e["cx"] = [[lat(P.global_corners_cartesian[i][j]) for j in range(k[1])] for i in range(k[0])]
